@@ -3319,6 +3319,10 @@ def _translate_fragment(self):
     blk = ps.block()
     if ps.peek().k != "eof":
         raise U(ps.peek().line, "the fragment's lines are not a sequence of complete statements")
+    if blk["tail"] is not None and blk["tail"]["k"] == "if" and blk["tail"]["els"] is None:
+        # a stretch ending in `if c { .. }` (no `else`, unit value): an expression statement like any other
+        blk["stmts"].append(N("sexpr", blk["tail"]["line"], e=blk["tail"]))
+        blk["tail"] = None
     if blk["tail"] is not None:
         raise U(sel["end"], "the fragment ends in an expression without `;`")
     self.item = dict(it, line0=sel["start"], line1=sel["end"])
@@ -3634,6 +3638,28 @@ KERNELS += [
                        result=["reward"]),
          props=["C09"], model="the reward of WW.Distributor.claimFee",
          theorem="WW.KernelsDistClaim.gen_distributor_claim_reward_eq_model", module="WW.Props.Kernels.DistClaim"),
+]
+
+# ---- the incentive's claim arithmetic (C12, C13): two stretches inside the loop over epochs of `claim::claim` ---------------
+INC_CLAIM = PN + "incentive/src/claim.rs"
+KERNELS += [
+    dict(lean="incentive_emission_per_epoch", file=INC_CLAIM, fn="claim",
+         fragment=dict(start=r"^\s*let emission_per_epoch = flow_asset_amount\s*$",
+                       end=r"\.checked_div\(Uint128::from\(flow_expanded_end_epoch - epoch_id\)\)\?;",
+                       params=[("flow_asset_amount", "Uint128"), ("emitted_tokens", "Uint128"),
+                               ("flow_expanded_end_epoch", "u64"), ("epoch_id", "u64")],
+                       result=["emission_per_epoch"]),
+         props=["C12", "C13"], model="the emission of WW.Inc.emissionStep",
+         theorem="WW.KernelsIncClaim.gen_incentive_emission_per_epoch_eq_model", module="WW.Props.Kernels.IncClaim"),
+    dict(lean="incentive_user_reward", file=INC_CLAIM, fn="claim",
+         fragment=dict(start=r"^\s*let user_share_at_epoch = Decimal256::from_ratio\(user_weight, global_weight_at_epoch\);",
+                       end=r"^\s*return Err\(ContractError::InvalidReward \{\}\);", end_plus=1,
+                       params=[("user_weight", "Uint128"), ("global_weight_at_epoch", "Uint128"), ("emission_per_epoch", "Uint128"),
+                               ("claimed_amount", "Uint128"), ("expanded_asset_amount", "Uint128")],
+                       subst=[("flow.claimed_amount", "claimed_amount")],
+                       result=["user_reward_at_epoch"]),
+         props=["C12", "C13"], model="WW.Inc.rewardOf and the sanity check of WW.Inc.claimPay",
+         theorem="WW.KernelsIncClaim.gen_incentive_user_reward_eq_model", module="WW.Props.Kernels.IncClaim"),
 ]
 
 # the generated file imports the map primitives next to the number primitives
